@@ -7,33 +7,40 @@ import Emboss.Spec.ViewRef
 import Emboss.Lemmas.ViewMono2
 import Emboss.Lemmas.OkMonoArr
 import Emboss.Lemmas.Synth
+import Emboss.Lemmas.SizeFolds
 import Emboss.Model.ViewObs
 namespace Emboss.ViewRef
 open Emboss.View
 
 mutual
-  theorem evalR_eq_eval (ρ : Env) : ∀ e : Expr, foldFree e = true → evalR ρ e = eval ρ e
-    | .const v, _ => by simp only [evalR, eval]
-    | .fold _ _, h => by simp [foldFree] at h
-    | .ref p, _ => by simp only [evalR, eval]
-    | .param n, _ => by simp only [evalR, eval]
-    | .has p, _ => by simp only [evalR, eval]
-    | .lv, _ => by simp only [evalR, eval]
-    | .op f args, h => by
-      simp only [foldFree] at h
-      simp only [evalR, eval, evalRList_eq_evalList ρ args h]
-  theorem evalRList_eq_evalList (ρ : Env) :
-      ∀ es : Exprs, foldFreeList es = true → evalRList ρ es = evalList ρ es
-    | .nil, _ => by simp only [evalRList, evalList]
-    | .cons e es, h => by
-      simp only [foldFreeList, Bool.and_eq_true] at h
-      simp only [evalRList, evalList, evalR_eq_eval ρ e h.1, evalRList_eq_evalList ρ es h.2]
+  /-- R evaluates the source expression: annotations stripped -/
+  theorem evalR_eq_strip (ρ : Env) : ∀ e : Expr, evalR ρ e = eval ρ (stripFolds e)
+    | .const v => by simp only [evalR, eval, stripFolds]
+    | .fold _ orig => by simp only [evalR, stripFolds]; exact evalR_eq_strip ρ orig
+    | .ref p => by simp only [evalR, eval, stripFolds]
+    | .param n => by simp only [evalR, eval, stripFolds]
+    | .has p => by simp only [evalR, eval, stripFolds]
+    | .lv => by simp only [evalR, eval, stripFolds]
+    | .op f args => by simp only [evalR, eval, stripFolds, evalRList_eq_strip ρ args]
+  theorem evalRList_eq_strip (ρ : Env) : ∀ es : Exprs, evalRList ρ es = evalList ρ (stripFoldsList es)
+    | .nil => by simp only [evalRList, evalList, stripFoldsList]
+    | .cons e es => by
+      simp only [evalRList, evalList, stripFoldsList, evalR_eq_strip ρ e, evalRList_eq_strip ρ es]
 end
+
+/-- on expressions whose annotations are closed constants the reference's evaluation (through the
+annotations) and the generated code's (literal instead of the annotated node) coincide -/
+theorem evalR_eq_eval (ρ : Env) (e : Expr) (h : foldFree e = true) : evalR ρ e = eval ρ e := by
+  rw [evalR_eq_strip, ← eval_strip ρ e h]
+
+theorem evalRList_eq_evalList (ρ : Env) (es : Exprs) (h : foldFreeList es = true) :
+    evalRList ρ es = evalList ρ es := by
+  rw [evalRList_eq_strip, ← evalList_strip ρ es h]
 
 theorem evalArgsR_eq (ρ : Env) : ∀ es : Exprs, foldFreeList es = true → evalArgsR ρ es = evalArgs ρ es
   | .nil, _ => rfl
   | .cons e es, h => by
-    simp only [foldFreeList, Bool.and_eq_true] at h
+    simp only [foldFreeList, closedFoldsList, Bool.and_eq_true] at h
     simp only [evalArgsR, evalArgs, evalR_eq_eval ρ e h.1, evalArgsR_eq ρ es h.2]
     cases eval ρ e <;> cases evalArgs ρ es <;> rfl
 
